@@ -472,6 +472,11 @@ func main() {
 	r.Cases("iter", r.N(20000, 800000), ev.Opt{HangViolation: true}, iterCase)
 	r.Cases("windows", r.N(20000, 200000), ev.Opt{HangViolation: true}, windowsCase)
 	r.Cases("big", r.N(1600, 16000), ev.Opt{HangViolation: true}, bigCase)
+	// members at and above 2^32: two sets of 512 MiB, one after the other (beyond32.go)
+	r.Cases("beyond32", r.N(2, 8), ev.Opt{Workers: 2, MaxCaseSeconds: 600}, beyond32Case)
+	r.Require("beyond32_Bits", 1)
+	r.Require("beyond32_Bitmap", 1)
+	r.Require("beyond32_enumerations", 5)
 	r.Cases("reentrant", r.N(20000, 200000), ev.Opt{HangViolation: true}, reentrantCase)
 	r.Cases("steps", r.N(7000, 140000), ev.Opt{HangViolation: true}, stepsCase)
 	r.Cases("chains", r.N(8000, 160000), ev.Opt{HangViolation: true}, chainsCase)
